@@ -490,19 +490,38 @@ def r_snap(E):
             if m and T.is_mut(m):
                 first_mut = first_mut or c.lineno
     snaps = []
-    for n in ast.walk(init):
-        if isinstance(n, ast.Assign) and "previous_total_" in norm(n.targets[0]):
-            snaps.append(n)
+    for mname, mfn in T.methods.items():
+        for n in ast.walk(mfn):
+            if isinstance(n, ast.Assign) and "previous_total_" in norm(n.targets[0]):
+                # position in the constructor: the statement itself, or the call of the helper that contains it
+                if mname == "__init__":
+                    pos = n.lineno
+                else:
+                    calls = [c.lineno for st in init.body for c in _calls(st) if _self_method_call(c) == mname]
+                    pos = min(calls) if calls else None
+                snaps.append((n, pos, mname))
     if not snaps:
-        raise AnalysisError("previous_total_* snapshot vanished from ModelingUpdate.__init__")
-    for n in snaps:
+        raise AnalysisError("previous_total_* snapshot vanished from ModelingUpdate")
+    first_mut_any = None
+    for st in ast.walk(init):
+        if isinstance(st, ast.Call):
+            m = _self_method_call(st)
+            if m and T.is_mut(m):
+                first_mut_any = st.lineno if first_mut_any is None else min(first_mut_any, st.lineno)
+    first_mut = first_mut_any if first_mut_any is not None else first_mut
+    for n, pos, mname in snaps:
         res.instances += 1
-        if first_mut is not None and n.lineno > first_mut:
+        if pos is None:
+            res.findings.append(Finding("R-SNAP", f"ModelingUpdate.{mname} :: snapshot helper never called",
+                                        f"the before-edit totals are taken in {mname}, which the constructor never calls",
+                                        T.rel, n.lineno, f"ModelingUpdate.{mname}"))
+            continue
+        if first_mut is not None and pos > first_mut:
             res.findings.append(Finding(
                 "R-SNAP", f"ModelingUpdate.__init__ :: {norm(n.targets[0])} after mutation",
                 f"{norm(n.targets[0])} is taken after the changes were applied: the totals are computed on demand from "
-                f"the current links, so the 'before' reference is the state after the edit", T.rel, n.lineno,
-                "ModelingUpdate.__init__"))
+                f"the current links, so the 'before' reference is the old values summed over the objects reachable "
+                f"*after* the edit", T.rel, n.lineno, f"ModelingUpdate.{mname}"))
         par = getattr(n, "_parent", None)
         guard = norm(par.test) if isinstance(par, ast.If) else ""
         log = [x for x in (par.body if isinstance(par, ast.If) else []) if "all_changes" in norm(x)]
@@ -540,7 +559,7 @@ def r_snap(E):
             res.findings.append(Finding("R-SNAP", f"System.after_init :: {norm(n.targets[0])} source",
                                         f"{norm(n.targets[0])} is assigned {norm(n.value)[:60]}, not {want}", rel,
                                         n.lineno, "System.after_init"))
-    res.samples = [{"snapshot": norm(n)[:90], "first_mutating_call_line": first_mut} for n in snaps]
+    res.samples = [{"snapshot": norm(n)[:90], "first_mutating_call_line": first_mut} for n, _, _ in snaps]
     res.floor = 4
     return res
 
